@@ -23,11 +23,12 @@ from .index import ClassInfo, FuncInfo, Index, ModuleInfo, Undecided, norm
 class Lin:
     """Linear form sum(coef[v]*v) + const, with the float evaluation tree attached."""
 
-    __slots__ = ("coef", "const", "tree")
+    __slots__ = ("coef", "const", "tree", "is_float")
 
-    def __init__(self, coef=None, const=0, tree=None):
+    def __init__(self, coef=None, const=0, tree=None, is_float=False):
         self.coef = {k: Fraction(v) for k, v in (coef or {}).items() if v != 0}
         self.const = Fraction(const)
+        self.is_float = is_float  # only affects how a constant prints (2 vs 2.0); symbolic values are floats anyway
         if tree is None:
             if not self.coef:
                 tree = ("c", self.const)
@@ -55,20 +56,23 @@ class Lin:
         c = dict(self.coef)
         for k, v in o.coef.items():
             c[k] = c.get(k, 0) + v
-        return Lin(c, self.const + o.const, ("+", self.tree, o.tree))
+        return Lin(c, self.const + o.const, ("+", self.tree, o.tree), self.is_float or o.is_float)
 
     def __sub__(self, o):
         c = dict(self.coef)
         for k, v in o.coef.items():
             c[k] = c.get(k, 0) - v
-        return Lin(c, self.const - o.const, ("-", self.tree, o.tree))
+        return Lin(c, self.const - o.const, ("-", self.tree, o.tree), self.is_float or o.is_float)
 
     def neg(self):
-        return Lin({k: -v for k, v in self.coef.items()}, -self.const, ("neg", self.tree))
+        return Lin({k: -v for k, v in self.coef.items()}, -self.const, ("neg", self.tree), self.is_float)
 
     def scale(self, f, tree=None):
         f = Fraction(f)
-        return Lin({k: v * f for k, v in self.coef.items()}, self.const * f, tree or ("*", self.tree, ("c", f)))
+        return Lin({k: v * f for k, v in self.coef.items()}, self.const * f, tree or ("*", self.tree, ("c", f)), self.is_float)
+
+    def as_float(self):
+        return Lin(self.coef, self.const, self.tree, True)
 
     def same(self, o):
         return isinstance(o, Lin) and self.key() == o.key()
@@ -1251,7 +1255,7 @@ class Interp:
         if isinstance(v, bool) or v is None or isinstance(v, str):
             return v
         if isinstance(v, (int, float)):
-            return Lin.num(Fraction(str(v)) if isinstance(v, float) else v)
+            return Lin.num(Fraction(str(v))).as_float() if isinstance(v, float) else Lin.num(v)
         if isinstance(v, bytes):
             return Lst([Lin.num(b) for b in v])  # byte strings are modelled as lists
         if v is Ellipsis:
@@ -1522,8 +1526,24 @@ class Interp:
                 parts.append(v.value)
             else:
                 x = self.eval(v.value, env)
-                if isinstance(x, Lin) and x.is_const() and x.const.denominator == 1 and v.format_spec is None:
-                    x = str(int(x.const))
+                spec = None
+                if v.format_spec is not None:
+                    sp = self.eval(v.format_spec, env)
+                    spec = sp if isinstance(sp, str) else False
+                if isinstance(x, Lin) and x.is_const() and spec is not False:
+                    py = float(x.const) if (x.is_float or x.const.denominator != 1) else int(x.const)
+                    try:
+                        txt = repr(py) if v.conversion == 114 else str(py) if v.conversion == 115 else py
+                        x = format(txt, spec or "")
+                    except (ValueError, TypeError):
+                        raise PyRaise("ValueError", e)
+                elif isinstance(x, str) and spec is not False:
+                    try:
+                        x = format(repr(x) if v.conversion == 114 else x, spec or "")
+                    except (ValueError, TypeError):
+                        raise PyRaise("ValueError", e)
+                elif isinstance(x, bool) or x is None:
+                    x = str(x)
                 if isinstance(x, Lin) and v.format_spec is None and v.conversion in (-1, 114, 115):
                     x = Str("num", (x,))
                 parts.append(x if isinstance(x, (str, Str)) else _StrOf(x))
@@ -1607,16 +1627,18 @@ class Interp:
                 return Lst(a.items * int(b.const))
             x, y = self.num(a, node), self.num(b, node)
             if y.is_const():
-                return x.scale(y.const, ("*", x.tree, y.tree))
+                r = x.scale(y.const, ("*", x.tree, y.tree))
+                return r.as_float() if y.is_float else r
             if x.is_const():
-                return y.scale(x.const, ("*", x.tree, y.tree))
+                r = y.scale(x.const, ("*", x.tree, y.tree))
+                return r.as_float() if x.is_float else r
             raise Undecided("product of two symbolic numbers")
         if isinstance(op, ast.Div):
             x, y = self.num(a, node), self.num(b, node)
             if y.is_const():
                 if y.const == 0:
                     raise PyRaise("ZeroDivisionError", node)
-                return x.scale(1 / y.const, ("/", x.tree, y.tree))
+                return x.scale(1 / y.const, ("/", x.tree, y.tree)).as_float()
             raise Undecided("division by a symbolic number")
         if isinstance(op, ast.Mod) and isinstance(a, (str, Str)):
             if isinstance(a, str):
@@ -1625,8 +1647,10 @@ class Interp:
                 for v in vals:
                     if isinstance(v, str):
                         conc.append(v)
-                    elif isinstance(v, Lin) and v.is_const() and v.const.denominator == 1:
-                        conc.append(int(v.const))
+                    elif isinstance(v, Lin) and v.is_const():
+                        conc.append(float(v.const) if (v.is_float or v.const.denominator != 1) else int(v.const))
+                    elif isinstance(v, bool) or v is None:
+                        conc.append(v)
                     else:
                         conc = None
                         break
@@ -1781,10 +1805,10 @@ class Interp:
         if n in ("float", "math.fabs"):
             v = args[0]
             if isinstance(v, Lin):
-                return v
+                return v.as_float()
             if isinstance(v, str):
                 try:
-                    return Lin.num(Fraction(v))
+                    return Lin.num(Fraction(v)).as_float()
                 except Exception:
                     raise PyRaise("ValueError", node)
             raise Undecided("float(%r)" % (v,))
@@ -2119,6 +2143,8 @@ class Interp:
         if n == "operator.methodcaller":
             nm, a0, k0 = args[0], list(args[1:]), dict(kwargs)
             return PyFunc(lambda I_, obj: I_.call_value(I_.getattr(obj, nm), a0, k0))
+        if n in ("dict.__getitem__", "dict.get") and args and isinstance(args[0], DictVal):
+            return self._dict_method("get" if n.endswith("get") else "__getitem__", args[0], args[1:], kwargs, node)
         if n == "dict.fromkeys":
             d = DictVal()
             for k in it(args[0]):
@@ -2462,6 +2488,10 @@ class Interp:
                     return args[1]
                 raise PyRaise("KeyError", node)
             return recv.d.pop(k)
+        if m == "__getitem__":
+            return recv.d[self.dict_key(recv, args[0])]
+        if m == "__contains__":
+            return self._contains(recv, args[0], node)
         if m == "setdefault":
             try:
                 return recv.d[self.dict_key(recv, args[0])]
